@@ -2748,6 +2748,13 @@ ws_str_recv(void *arg, nng_aio *aio)
 
 	nni_aio_reset(aio);
 	nni_mtx_lock(&ws->mtx);
+	if (ws->closed) {
+		// ws_close fails the receives that are waiting; one posted
+		// afterwards would wait for ever (nothing is read any more)
+		nni_mtx_unlock(&ws->mtx);
+		nni_aio_finish_error(aio, NNG_ECLOSED);
+		return;
+	}
 	if (!nni_aio_start(aio, ws_read_cancel, ws)) {
 		nni_mtx_unlock(&ws->mtx);
 		return;
